@@ -2430,25 +2430,28 @@ func lemmaForwardSession(raw *rawEnvelope) (e *Session, e3 *Session, accepted bo
 
 // ---------------------------------------------------------------------------
 // C12 - the TCP byte stream wrappers: io.Writer / io.Reader byte accounting of
-// ctxConn for every result sequence of the underlying net.Conn
+// ctxConn for every result sequence of the underlying net.Conn. The same
+// obligations carry C04 over TCP and TCP+TLS: an envelope arrives intact only if
+// every byte the encoder hands to Write reaches the connection exactly once, in
+// order, and every byte Read reports was read from it.
 // ---------------------------------------------------------------------------
 
 //@ func (*ctxConn).Write
-//@   props C12
+//@   props C04 C12
 //@   requires c != nil && c.conn != nil && c.writeCtx != nil
 //@   modifies c.conn.wcount
 //@   loop 0 invariant 0 <= n && n <= len(b) && c.conn.wcount == old(c.conn.wcount) + n
-//@   oncall [C12] net.Conn.Write : suffixof(a_b, b, c.conn.wcount - old(c.conn.wcount))
-//@   ensures [C12] @accounting c.conn.wcount == old(c.conn.wcount) + n
-//@   ensures [C12] @shortimplieserr n < len(b) ==> err != nil
+//@   oncall [C04,C12] net.Conn.Write : suffixof(a_b, b, c.conn.wcount - old(c.conn.wcount))
+//@   ensures [C04,C12] @accounting c.conn.wcount == old(c.conn.wcount) + n
+//@   ensures [C04,C12] @shortimplieserr n < len(b) ==> err != nil
 //@   ensures 0 <= n && n <= len(b)
 
 //@ func (*ctxConn).Read
-//@   props C12
+//@   props C04 C12
 //@   requires c != nil && c.conn != nil && c.readCtx != nil
 //@   modifies c.conn.rcount
 //@   loop 0 invariant c.conn.rcount == old(c.conn.rcount)
-//@   ensures [C12] @accounting c.conn.rcount == old(c.conn.rcount) + n
+//@   ensures [C04,C12] @accounting c.conn.rcount == old(c.conn.rcount) + n
 //@   ensures 0 <= n && n <= len(b)
 
 // ---------------------------------------------------------------------------
